@@ -277,7 +277,7 @@ func vfRunC08Case(env *vfEnv, part *vfPart, caseNo int) {
 		live = nil
 		fs2 := vfCompareRestart(ph2, before, exps, restored, 1, stats)
 		fs2 = append(fs2, vfCompareCarried(snapB, before, restored, now2, func(db uint8, key [16]byte) string {
-			if ph.relocked[vfKeyId{db, vfKeyIndex(key)}] {
+			if ph.keyRelocked(db, vfKeyIndex(key)) {
 				return "skip"
 			}
 			return ""
@@ -289,7 +289,7 @@ func vfRunC08Case(env *vfEnv, part *vfPart, caseNo int) {
 			// keys of the first history on which a restart is known (C07) not to
 			// rebuild the state exactly are left out: re-locked / updated holds, and
 			// keys held by more holders than their smallest Count admits
-			if ph.relocked[vfKeyId{rk.Db, vfKeyIndex(rk.Key)}] {
+			if ph.keyRelocked(rk.Db, vfKeyIndex(rk.Key)) {
 				continue
 			}
 			if ak := snapA.find(rk.Db, rk.Key); ak != nil {
